@@ -417,7 +417,7 @@ def run_pair(tree, variant, script_lines, tag, cone=None):
     base = os.path.join(tree.dir, 'run-%s-%s-%d' % (tag, variant, os.getpid()))
     with open(base + '.script', 'w') as f:
         f.write('\n'.join(script_lines) + '\n')
-    env = dict(os.environ, ASAN_OPTIONS='detect_leaks=0:abort_on_error=0:exitcode=99', UBSAN_OPTIONS='print_stacktrace=1:exitcode=98')
+    env = dict(os.environ, ASAN_OPTIONS='detect_leaks=0:abort_on_error=0:exitcode=99', UBSAN_OPTIONS='print_stacktrace=1:exitcode=98', TZ='XXX5')
     with open(base + '.script') as fin, open(base + '.c', 'w') as fout, open(base + '.err', 'w') as ferr:
         rc = subprocess.run([exe], stdin=fin, stdout=fout, stderr=ferr, env=env).returncode
     with open(base + '.c', errors='replace') as f:
@@ -467,7 +467,7 @@ def run_c_only(tree, variant, script_lines, tag):
     exe, err = tree.harness(variant)
     if err:
         return 97, [], [], err
-    env = dict(os.environ, ASAN_OPTIONS='detect_leaks=0:exitcode=99', UBSAN_OPTIONS='print_stacktrace=1:exitcode=98')
+    env = dict(os.environ, ASAN_OPTIONS='detect_leaks=0:exitcode=99', UBSAN_OPTIONS='print_stacktrace=1:exitcode=98', TZ='XXX5')
     r = subprocess.run([exe], input='\n'.join(script_lines) + '\n', stdout=subprocess.PIPE, stderr=subprocess.PIPE,
                        text=True, errors='replace', env=env)
     header, ops = parse_transcript(r.stdout)
